@@ -406,12 +406,22 @@ package ion
 //@ ensures bsStream(b)
 //@ ensures err == nil ==> bsLocal(b) && bsConsumed(b, old(b.pos), old(bsS(b).cur), old(b.len)) && result != nil
 
+//@ func (*bitstream).readNsecs
+//@ trusted assumed for ReadTimestamp until the decimal decoding is under contract: consumes exactly length bytes or fails
+//@ requires bsStream(b) && bsPos(b) && bsRoom(b, length)
+//@ modifies b.pos, vcStreamOf(b.in).cur
+//@ ensures bsStream(b) && bsPos(b)
+//@ ensures err == nil ==> b.pos == old(b.pos)+length && bsS(b).cur == old(bsS(b).cur)+int(length)
+
 //@ func (*bitstream).ReadTimestamp
-//@ trusted assumed for callers until the timestamp decoding is under contract: consumes exactly the value or fails
+//@ split returns
+//@ unroll loop0 6
 //@ requires bsLocal(b) && bsOn(b, bitcodeTimestamp)
 //@ modifies b.pos, b.state, b.code, b.null, b.len, vcStreamOf(b.in).cur
-//@ ensures bsStream(b)
-//@ ensures err == nil ==> bsLocal(b) && bsConsumed(b, old(b.pos), old(bsS(b).cur), old(b.len))
+//@ ensures[C06] bsStream(b)
+//@ ensures[C03,C06,C08,C15] err == nil ==> bsLocal(b) && bsConsumed(b, old(b.pos), old(bsS(b).cur), old(b.len))
+//@ ensures[C07,C15] old(b.len) == 0 ==> err != nil
+//@ safe[C06]
 
 //@ func (*bitstream).ReadAnnotations
 //@ trusted assumed for callers until the annotation wrapper decoding is under contract: on success the stream stands before the enclosed value
@@ -1134,4 +1144,28 @@ package ion
 //@ ensures[C09] result1 ==> vcHasKey(b.index, symbol) && b.index[symbol] == result0
 //@ ensures[C09] !result1 ==> len(b.symbols) == old(len(b.symbols))
 //@ ensures[C09] forall i int :: 0 <= i && i < old(len(b.symbols)) ==> b.symbols[i] == old(b.symbols[i])
+//@ safe[C06]
+
+//@ func tryCreateTimestamp
+//@ requires len(ts) == 6
+//@ modifies nothing
+//@ ensures[C07,C15] err == nil ==> 1 <= ts[1] && ts[1] <= 12 && 1 <= ts[2] && ts[2] <= 31
+//@ ensures[C07,C15] err == nil ==> 0 <= ts[3] && ts[3] <= 23 && 0 <= ts[4] && ts[4] <= 59 && 0 <= ts[5] && ts[5] <= 59
+//@ ensures[C07,C15] err == nil && precision > TimestampPrecisionDay ==> -1440 < offset && offset < 1440
+//@ safe[C06]
+
+// Text timestamps: an offset of 24 hours or more, or 60 minutes or more, is rejected (C15).
+//@ opaque computeOffset
+//@ func computeOffset
+//@ trusted assumed pure: the same text yields the same fields (strconv.ParseInt is outside the engine's subset)
+//@ modifies nothing
+
+//@ func computeTimezoneKind
+//@ requires 0 <= idx && idx < len(val)
+//@ modifies nothing
+//@ ensures[C07,C15] err == nil && (val[idx] == '+' || val[idx] == '-') ==> specOffsetErr(val, idx) == nil && specOffsetHour(val, idx) < 24 && specOffsetMinute(val, idx) < 60
+//@ ensures[C15] err == nil && result == TimezoneLocal ==> (val[idx] == '+' || val[idx] == '-') && (specOffsetHour(val, idx) != 0 || specOffsetMinute(val, idx) != 0)
+//@ ensures[C15] err == nil && val[idx] == '-' && specOffsetHour(val, idx) == 0 && specOffsetMinute(val, idx) == 0 ==> result == TimezoneUnspecified
+//@ ensures[C15] err == nil && (val[idx] == 'z' || val[idx] == 'Z') ==> result == TimezoneUTC
+//@ ensures[C07,C15] val[idx] != 'z' && val[idx] != 'Z' && val[idx] != '+' && val[idx] != '-' ==> err != nil
 //@ safe[C06]
